@@ -36,7 +36,8 @@ static uint64_t slot_hits[S_NSLOTS];
 
 static void c08_case(const uint8_t* src, size_t len) {
   if (!vh_case(src, len)) return;
-  uint8_t* buf = vh_exact(src, len);
+  void* buf_base;
+  uint8_t* buf = vh_exact_mis(src, len, (unsigned)(vh_hash(src, len) >> 17) & 15, &buf_base); /* every start alignment over the cases */
   struct rtoken t = ref_tokenize(buf, len);
   int ctx;
   rec_expected_ctx = &ctx;
@@ -122,7 +123,14 @@ static void c08_case(const uint8_t* src, size_t len) {
         vh_violation("depends-on-trailing-bytes", "flipping the bytes beyond read changed the result");
     }
   }
-  free(buf);
+  /* the empty buffer may be represented by a null pointer */
+  if (len == 0) {
+    rec_reset();
+    struct cbor_decoder_result r0 = cbor_stream_decode(NULL, 0, &rec_table, &ctx);
+    if (r0.status != CBOR_DECODER_NEDATA || r0.read != 0 || rec_n != 0 || r0.required < 1) vh_violation("null-empty-buffer", "cbor_stream_decode(NULL, 0) gave %s/read=%zu/required=%zu/%d callbacks", st_name(r0.status), r0.read, r0.required, rec_n);
+    VH_COUNT("null_pointer_empty_buffer_calls", 1);
+  }
+  free(buf_base);
   vh_nontrivial(vh_hash(src, len));
 }
 
@@ -587,14 +595,16 @@ static void c10_case(int e, uint64_t v) {
   uint8_t want[16];
   int slot; uint64_t darg; bool decodable;
   size_t wl = want_encoding(e, v, want, &slot, &darg, &decodable);
-  uint8_t* buf = malloc(wl); /* exactly the expected size: one byte more is a red-zone hit */
+  unsigned omis = (unsigned)((v ^ (v >> 31) ^ (uint64_t)e * 3) & 7); /* output start alignment varies */
+  uint8_t* buf_base = malloc(wl + omis); /* ends exactly at the expected size: one byte more is a red-zone hit */
+  uint8_t* buf = buf_base + omis;
   memset(buf, 0xee, wl);
   ta_reset_stats();
   size_t got = vh_call_encoder(e, v, buf, wl);
   if (TA.requests) vh_violation("allocates", "cbor_encode_%s made %llu allocator requests", enc_names[e], (unsigned long long)TA.requests);
   if (e == E_CTRL && v >= 24 && v < 32) {
     /* RFC 8949 gives simple values 24..31 no well-formed encoding: only safety is judged here, not the bytes */
-    free(buf);
+    free(buf_base);
     VH_COUNT("ctrl_24_31_not_judged", 1);
     return;
   }
@@ -630,7 +640,7 @@ static void c10_case(int e, uint64_t v) {
     }
   }
   (void)fbits;
-  free(buf);
+  free(buf_base);
   if (g_c10_by_construction) vh_nontrivial_distinct(); else vh_nontrivial(vh_hash(desc, 9));
 }
 
